@@ -23,6 +23,7 @@ import (
 type declJ struct {
 	Digest   string   `json:"digest"` // syntax of the declaration, comments and positions erased
 	Kind     string   `json:"kind"`
+	Import   bool     `json:"import"` // an import declaration
 	Start    int      `json:"start"` // offset of the first byte of the declaration or its doc comment
 	End      int      `json:"end"`
 	Doc      []string `json:"doc"`
@@ -93,6 +94,9 @@ func ownedComments(src []byte) (o ownedJ) {
 		dj := declJ{Kind: fmt.Sprintf("%T", d), Start: tf.Offset(d.Pos()), End: tf.Offset(d.End())}
 		if spans[i].doc.IsValid() {
 			dj.Start = tf.Offset(spans[i].doc)
+		}
+		if gd, ok := d.(*ast.GenDecl); ok && gd.Tok == token.IMPORT {
+			dj.Import = true
 		}
 		h := sha1.Sum([]byte(treeOf(d, treeOpts{StripParens: true})))
 		dj.Digest = hex.EncodeToString(h[:8])
